@@ -41,12 +41,12 @@ Print Assumptions C03_width_is_a_lower_bound.
 
 (* (4) *)
 Theorem C03_decomposition_with_at_most_npos_paths_exists : forall G P S topo (f : Reach.edge -> Z),
-  peel_inputs_ok G P S topo = true -> G <> [] -> nonneg G f -> conserving G f ->
-  exists D, decompose G (adj_of P) (adj_of S) topo f = PeelOK D /\
+  peel_inputs_ok G P S topo = true -> nonneg G f -> conserving G f ->
+  exists D, decompose code_nosink_keyerror G (adj_of P) (adj_of S) topo f = PeelOK D /\
             (forall e, In e G -> explained D e = f e) /\
             Forall (fun pw => ss_path G (fst pw) /\ (0 < snd pw)%Z) D /\
             (length D <= npos G f)%nat.
-Proof. exact greedy_peeling_explains_checked. Qed.
+Proof. exact greedy_peeling_explains_code. Qed.
 Print Assumptions C03_decomposition_with_at_most_npos_paths_exists.
 
 (* the statement whose remaining gap is LP completeness *)
